@@ -64,6 +64,26 @@ CHECKS = {
    technique="runtime monitoring: exhaustive exit placement with a reference-model monitor (defer model) over stdout marker traces and outcomes of the real interpreter",
    text="All bodies of n ≤ 3 (quick) / n ≤ 4 (thorough) statements over {marker, defer, guarded defers, raising defer, nested call with its own defers}, with every exit kind injected at every statement index, in five calling contexts (≈34 k programs quick) are run on the real interpreter and compared with the statement's defer model (marker sequence + value/error). Exhaustive for the stated alphabet and bound.",
    note="Trusted: the defer model transcribed from the statement; bodies end with an explicit value."),
+ "C03": dict(level="exploration", design="§3 C03",
+   technique="runtime monitoring: reference-model monitor (independent reference evaluator over the generator AST) compared with stdout and final value of the real interpreter",
+   text="Random programs from a function profile (nested closures and methods, shadowing parameters, assignments inside bodies, closures invoked after the captured scope changed, argument-count mismatches, keyword/positional interleavings, defaults, */**, \\-references, property/index/literal/variable calls, trailing literals) are printed to source and run on the real interpreter; every printed read and the final value must equal the reference evaluator's (2.8 k decided programs quick, 100 k thorough).",
+   note="Trusted: package ref (transcribes the statement; declines where the documents are silent); programs it declines are inconclusive."),
+ "C04": dict(level="exploration", design="§3 C04",
+   technique="runtime monitoring: per-element reference-model monitor + three-form equality monitor over the exhaustive behaviour matrix run on the real interpreter",
+   text="All behaviour vectors {value, nil, raise, nil-element}ⁿ (n ≤ 3 quick, ≤ 4 thorough) × 12 chain contexts × 3 call forms over array and iterator-literal receivers of marker-printing user objects, list-chain arguments [] {} %{}, scalar chains and built-in receivers are executed; result, error and the set of callees actually called are compared with the statement's rule and the three forms with each other. Exhaustive over the stated matrix.",
+   note="Trusted: the per-element model; cells the statement leaves open (nil element under ~@, lonely reduce with nil receivers) are not generated."),
+ "C05": dict(level="exploration", design="§3 C05",
+   technique="runtime monitoring: reference-model monitor (prototype forest) over query histories run on the real interpreter",
+   text="Histories build forests with literals, bear, bear({…}) and bro({…}) (values, functions, methods, _missing, private names, shadowing at every depth) interleaved with ≈40 queries each (o.name, o.name(arg), o['name], which, proto, ancestors, kindOf?, keys, keys(private?: true)); every answer is compared with the forest model; objects carry unique uids so owners and receivers are identified in printed results.",
+   note="Trusted: the forest model of the statement; kindOf? is only asked against objects with an own uid."),
+ "C13": dict(level="fault_enumeration", design="§3 C13",
+   technique="runtime monitoring: exhaustive failure placement with a differential monitor (wrapped run vs unwrapped run of the same chain in the same interpreter)",
+   text="All chains of k ≤ 3 (quick) / k ≤ 4 (thorough) steps over two families (user objects with marker-printing methods; ints with built-in steps) with a failing step of every error source at every position (≈5.3 k distinct chains quick) are run unwrapped and through try; val, err, A, val?, err?, or, catch (matching/non-matching), ignore, abandon, err.type, err.msg and the stdout markers of the wrapped run must describe exactly the unwrapped outcome.",
+   note="Trusted: the unwrapped run as reference; steps avoid names the Either itself defines."),
+ "C14": dict(level="exploration", design="§3 C14",
+   technique="runtime monitoring: reference-model monitor (independent per-iterator state machines) over interleaved operation histories run on the real interpreter",
+   text="Histories of 10–40 operations (new from literal and from an advanced iterator, aliasing, next, try.next past the end, A, list and reduce chains, _iter.next, passing to a function, reassigning a captured variable) over 2–6 iterators of a parameterised literal family are run statement by statement; each returned value or StopIterErr must equal the independent state machine's.",
+   note="Trusted: the closed-form body models; only iterator literals are judged."),
 }
 
 ALL = ["C%02d" % i for i in range(1, 21)]
